@@ -109,6 +109,13 @@ def probe(pid):
         import xfab
         from xfab import tools
         out["switch"] = bool(xfab.CHECKS.activated)
+        # an assignment survives whatever is imported afterwards
+        xfab.CHECKS.activated = False
+        import importlib
+        for m_ in ("symmetry", "structure", "laue", "detector", "parameters", "sg"):
+            importlib.import_module("xfab." + m_)
+        out["switch_after_assigning_False_and_importing_the_rest"] = bool(xfab.CHECKS.activated)
+        xfab.CHECKS.activated = True
         bad = U1 * 1.01
         try:
             tools.u_to_rod(bad)
